@@ -9,7 +9,7 @@ if os.path.exists(p):
     mx = json.load(open(p))
 rows = ["| id | property | needs to manifest | caught by (quick tier; violation classes) | generator / oracle extension it forced |",
         "|----|----------|-------------------|-------------------------------------------|----------------------------------------|"]
-n = caught = 0
+n = caught = neutral = 0
 for mp in sorted(glob.glob(os.path.join(HERE, "seeded", "*", "meta.json"))):
     m = json.load(open(mp))
     n += 1
@@ -24,9 +24,13 @@ for mp in sorted(glob.glob(os.path.join(HERE, "seeded", "*", "meta.json"))):
     needs = m["needs_to_manifest"].replace("|", "\\|")
     if len(needs) > 230:
         needs = needs[:227] + "..."
-    rows.append("| %s | %s | %s | %s | %s |" % (m["id"], m["property"], needs, "; ".join(by) or "(not in MATRIX.json yet)", m.get("extension", "")))
+    status = m.get("status")
+    if status:
+        neutral += 1
+    col = "; ".join(by) or ("-- " + status if status else "(missed in the last matrix run)" if r else "(not in MATRIX.json yet)")
+    rows.append("| %s | %s | %s | %s | %s |" % (m["id"], m["property"], needs, col, m.get("extension") or ""))
 rows.append("")
-rows.append("%d seeded changes; %d of them caught by at least one check in `seeded/MATRIX.json`." % (n, caught))
+rows.append("%d seeded changes; %d of them caught by their own property's quick check in `seeded/MATRIX.json`; %d no longer manifest on the current head (neutralised by a later repair, see their row)." % (n, caught, neutral))
 s = open(os.path.join(HERE, "DESIGN.md")).read()
 a, b = s.index("<!-- SEEDED-TABLE-BEGIN -->"), s.index("<!-- SEEDED-TABLE-END -->")
 s = s[:a] + "<!-- SEEDED-TABLE-BEGIN -->\n" + "\n".join(rows) + "\n" + s[b:]
